@@ -1,17 +1,30 @@
 /-
-  T1c tie for `index_fasta_file` (fasta/index.py): lemmas for the translated source `Gen.Imp.index_fasta_file_imp`.
+  T1c tie for `index_fasta_file` (fasta/index.py): lemmas for the translated source `Gen.Imp.index_fasta_file_imp`, and the
+  tie itself in its strong form (`index_fasta_file_imp_eq`: all four result components).
 
   The source keeps 13 loop variables, eight of them `None`-able; the model keeps an `IdxState`.  `toSrc st` rebuilds the
   source's variables from the model state (all `None` before the first header, all set after it), `Inv` is the invariant
-  that makes the two agree (a name is never empty, `residues_per_line` is set once a header was seen, every region
-  `(start, end)` has `start < end` — so `Fragment(name, start + 1, end, 1)` never raises).
+  that makes the two agree (a name is never empty, `residues_per_line` is set and `line_end_bytes > 0` once a header was
+  seen, every region `(start, end)` has `start < end` — so `Fragment(name, start + 1, end, 1)` never raises).
 
   * `forIn_abs_pure`, `forIn_abs`   a `PyRt.forIn` whose body, on states of the form `abs t`, does what a step function on `t`
                                     does, is `List.foldl` / `List.foldlM` of that step function
-  * `foldl_rowStep`                 the row loop of `store_info` = `regionRows`
-  * `mergeRun_inv`, …               the invariant is kept by `process_seq_buffer` / `store_info` / a line
-  * `safeB`, `preHeaderOk`          the shape of the part of the file before the first header on which model and source agree
-  The only place that looks at the generated text is `Properties/C04Imp.lean`.
+  * `pyGet_split_zero`              `line[1:].split()[0]` = the model's token (`dropWhile` blank, `takeWhile` non-blank)
+  * `mergeRun_inv`, `closeReg_lt`   regions are non-empty intervals;  `foldl_rowStep`: the row loop of `store_info` = `regionRows`
+  * `storeInfo_eq`, `indexLine_*`   the model side, in the shape of the source
+  * `preHeaderOk`, `Terminated`     the shape of the header-less prefix of the file on which model and source agree
+                                    (they differ on `[b"A", b"A\n"]`, see Properties/C04Imp.lean); `bLines_terminated`
+  * `invL_step`                     one line keeps the invariant (model side only)
+  * `index_fasta_file_imp_eq`       the simulation.  This is the only place that looks at the generated text, and it does so
+                                    through `simp` with run-time facts and four rewriting steps per closure call:
+                                    `forIn_abs_pure` for the two inner loops (the body hypotheses are discharged by the
+                                    tactics `proc_body` / `row_body`, which only unfold `mergeRun` / `rowStep` and split cases),
+                                    `ite_closeReg` for `if region_end: …append(…)`, `header_tail` for the name / line-ending
+                                    part of a header line.  The only generated sub-terms that are written down are two
+                                    one-expression `have`s in the sequence-line case (`hkeep`: the translation of
+                                    `line[:-line_end_bytes] if line[-1] == 10 else line`, `hr0`: of `if not residues_per_line`),
+                                    the shape `if _ then _ else .ok (some regs)` in `ite_closeReg`, and the order of the 13
+                                    loop variables in `toSrc`.
 -/
 import AgpTpf.Gen.Imp
 import AgpTpf.Model.Fasta
